@@ -34,7 +34,23 @@ def find_consumers(facts):
             for vi, v in enumerate(a['variants']):
                 if any(ty_head(f['ty']) == DELTA for f in v['fields']):
                     out.append((b, ups, i, ty_head(inner), vi))
+                elif len(v['fields']) == 1 and converter_from_delta(facts, ty_head(v['fields'][0]['ty'])) is not None:
+                    # the delta travels in a crate-private form built from it by one conversion function (From<MembershipChange> / a constructor)
+                    out.append((b, ups, i, ty_head(inner), vi))
     return out
+
+
+def converter_from_delta(facts, target):
+    """the one function of the store crate that turns a membership delta into `target` (by signature), or None"""
+    if target not in facts.adts or not target.startswith('datacake_eventual_consistency'):
+        return None
+    cands = []
+    for b in facts.bodies.values():
+        if b.crate != 'datacake_eventual_consistency' or b.d['promoted'] or b.kind not in ('fn', 'method') or b.cfg is None or b.argc != 1:
+            continue
+        if ty_head(b.local_ty(1).lstrip('&').strip()) == DELTA and ty_head(b.local_ty(0)) == target:
+            cands.append(b)
+    return cands[0] if len(cands) == 1 else None
 
 
 def member_adt(facts):
@@ -199,7 +215,17 @@ def run_consumer(facts, entry, ups, rx_i, opadt, vi):
     others = [j for j in range(len(a['variants'])) if j != vi]
     rounds = []
     for deltas, _want in HISTORY:
-        q = [('adt', opadt, vi, [Cell(make_delta(facts, madt, j, l))]) for j, l in deltas]
+        q = []
+        for j, l in deltas:
+            payload = make_delta(facts, madt, j, l)
+            fty = a['variants'][vi]['fields'][0]['ty']
+            if ty_head(fty) != DELTA:
+                conv = converter_from_delta(facts, ty_head(fty))
+                it0 = Interp(facts, Order({}), step_limit=100000)
+                it0.unknown_call = actor_abs.lenient_unknown
+                it0.opaque_fields = True
+                payload = it0.deref_all(it0.run_body(conv, [('ref', Cell(payload)) if conv.local_ty(1).startswith('&') else payload]))
+            q.append(('adt', opadt, vi, [Cell(payload)]))
         # something to act on in every round (a consumer that only acts when it has work)
         for j in others[:1]:
             q.append(make_other(facts, opadt, j))
